@@ -18,6 +18,15 @@ def judgeUpsel (fields : List String) : String :=
       let mn := cs.foldl min mx
       if mx - mn ≤ 1 ∧ cs.foldl (· + ·) 0 = 12 then "ok rrpipe 1" else "ok rrpipe 1 TRIP rr_unbalanced"
     | none => "BADLINE upsel rrpipe"
+  | ["slowreq", c1, b1, c2, c3, b3, c4, b4, c5, b5] =>
+    -- one request ended by the location's proxy timeout and one abandoned by its client say nothing about the server's
+    -- health: the primary keeps passing its checks, so it keeps getting the traffic
+    let prim := hex "primary".toList
+    let t := (if c1 ≠ "200" ∨ b1 ≠ prim then " TRIP no_server_while_healthy" else "")
+      ++ (if c2.toNat?.any (· < 500) then " TRIP upstream_hang_not_ended" else "")
+      ++ (if [(c3, b3), (c4, b4), (c5, b5)].any (fun cb => cb.1 = "200" ∧ cb.2 ≠ prim) then " TRIP backup_while_primary" else "")
+      ++ (if [c3, c4, c5].any (· ≠ "200") then " TRIP no_server_while_healthy" else "")
+    s!"ok slowreq 1{t}"
   | ["recover", "unavailable"] => "ok recover-unavailable 0"
   | ["recover", up, c1, b1, c2, c3, b3, c4, b4] =>
     -- a primary that failed one client request between two health checks, then is back and passes its check:
